@@ -78,6 +78,8 @@ type G struct {
 	noYield   int  // >0: inside Atomically; yields do not park
 	stalled   bool // set when a stBlockedOrStall wait was ended by a stall
 	Daemon    bool // harness helper goroutine: not counted as live for leak purposes
+	Adopted   bool // not started through Go: a goroutine started inside a dependency (context.AfterFunc, time.AfterFunc ...) that entered simulated code
+	wrapped   bool // adopted through Wrap: its end is seen, so it is accounted like any other goroutine
 }
 
 type tabEntry struct {
@@ -181,6 +183,11 @@ type Sim struct {
 
 	unknownYields atomic.Int64
 	unknownSpawns atomic.Int64
+
+	// spawnMu (real, never held while parked) serialises goroutine creation:
+	// an adopted goroutine registers itself while a simulated one is running.
+	spawnMu sync.Mutex
+	adopted int
 
 	classCount [numClasses]int64
 
@@ -373,7 +380,12 @@ func (s *Sim) spawn(parent *G, site string, fn func(), daemon bool) *G {
 	s.live[s.nlive] = int32(g.idx)
 	s.nlive++
 	s.mu.Unlock()
-	if parent == nil {
+	if parent == nil && g.idx != 0 {
+		// arrival order; deterministic as long as adoptions do not overlap
+		g.Name = "x" + itoa(s.adopted)
+		s.adopted++
+		g.Adopted = true
+	} else if parent == nil {
 		g.Name = "m"
 	} else {
 		g.Name = parent.Name + "." + itoa(parent.spawns)
@@ -470,13 +482,89 @@ func goImpl(site string, fn func(), daemon bool) {
 	}
 	if g == nil {
 		s.unknownSpawns.Add(1)
-		go fn()
-		return
+		g = s.adopt("adopted", false)
+		if g == nil {
+			return
+		}
 	}
 	raceDisable()
+	s.spawnMu.Lock()
 	c := s.spawn(g, site, fn, daemon)
+	s.spawnMu.Unlock()
 	raceEnable()
 	go s.body(c)
+}
+
+// adopt makes the calling goroutine, which was not started through Go, a
+// simulated one: it is registered and parks until the scheduler releases it.
+// Goroutines started inside dependencies (context.AfterFunc, time.AfterFunc)
+// get here at their first synchronisation operation in rewritten code; until
+// then they have run beside the scheduled goroutine. Returns nil when the run
+// is being torn down.
+//
+//go:norace
+func (s *Sim) adopt(site string, wrapped bool) *G {
+	if s.poison {
+		runtime.Goexit()
+	}
+	raceDisable()
+	s.spawnMu.Lock()
+	g := s.spawn(nil, site, nil, !wrapped)
+	g.wrapped = wrapped
+	s.spawnMu.Unlock()
+	s.register(goid(), g.idx)
+	select {
+	case s.wakeSched <- struct{}{}:
+	default:
+	}
+	<-g.release
+	raceEnable()
+	if s.poison {
+		if wrapped {
+			s.finish(g)
+		}
+		runtime.Goexit()
+	}
+	return g
+}
+
+// Wrap returns fn as a function that runs as a simulated goroutine when it is
+// started by a dependency on a goroutine of its own (the rewriter wraps the
+// callbacks given to context.AfterFunc and time.AfterFunc with it).
+func Wrap(site string, fn func()) func() {
+	return func() {
+		s := cur.Load()
+		if s == nil {
+			fn()
+			return
+		}
+		if s.lookupLive() != nil {
+			// called synchronously on a simulated goroutine
+			fn()
+			return
+		}
+		g := s.adopt(site, true)
+		defer func() {
+			if r := recover(); r != nil && !s.poison {
+				var buf [16384]byte
+				n := runtime.Stack(buf[:], false)
+				s.recordPanic(g, r, string(buf[:n]))
+			}
+			s.finish(g)
+		}()
+		fn()
+	}
+}
+
+// lookupLive returns the calling goroutine's G if it is a live simulated one.
+//
+//go:norace
+func (s *Sim) lookupLive() *G {
+	g := s.lookup(goid())
+	if g != nil && g.state == stDone {
+		return nil
+	}
+	return g
 }
 
 // Yield is a scheduling point: the calling goroutine parks until released.
@@ -489,7 +577,7 @@ func Yield(class uint8) {
 	}
 	if g == nil {
 		s.unknownYields.Add(1)
-		return
+		g = s.adopt("adopted", false)
 	}
 	if s.poison {
 		runtime.Goexit()
@@ -529,9 +617,15 @@ func (s *Sim) park(g *G, st int32, key uintptr, class uint8, pc uintptr) {
 //go:norace
 func BlockOn(key unsafe.Pointer) {
 	s, g := self()
-	if s == nil || g == nil {
+	if s == nil {
 		// Not simulated: the caller spins on TryLock; be polite.
 		runtime.Gosched()
+		return
+	}
+	if g == nil {
+		// adopted: it comes back runnable and re-checks its condition
+		s.unknownYields.Add(1)
+		s.adopt("adopted", false)
 		return
 	}
 	if s.poison {
@@ -683,8 +777,19 @@ func VirtualNow() time.Duration {
 
 //go:norace
 func (s *Sim) liveCount() int {
+	if s.adopted == 0 {
+		return s.nlive
+	}
+	// an adopted goroutine whose end cannot be seen counts only while it is
+	// parked in the simulator
 	n := 0
-	n = s.nlive
+	for k := 0; k < s.nlive; k++ {
+		g := s.g(int(s.live[k]))
+		if g.Adopted && !g.wrapped && g.state == stOut {
+			continue
+		}
+		n++
+	}
 	return n
 }
 
